@@ -123,8 +123,8 @@ impl<R: Read + Seek> ReadBox<&mut R> for Mp4aBox {
                 // Typically contains frma, mp4a, esds, and a terminator atom
             } else {
                 // Skip boxes
-                let skip_to = current + s;
-                skip_bytes_to(reader, skip_to)?;
+                // `s` is relative to the last 8 bytes of the header (64-bit sizes included)
+                skip_box(reader, s)?;
             }
         }
 
